@@ -13,6 +13,8 @@ import AdaptixProofs.Lemmas.NormDen
 import AdaptixProofs.Lemmas.NormRespects
 import AdaptixProofs.Lemmas.NormIdem
 import AdaptixProofs.Lemmas.NormKeys
+import AdaptixProofs.Lemmas.NormLitKey
+import AdaptixProofs.Lemmas.NormEquivDen
 
 namespace Adaptix.Types.C15
 
@@ -101,6 +103,17 @@ theorem equiv_sound (hK : DistinctOrderKeys W) {h₁ h₂ : Hint α} (e : Equiv 
     den h₁ v ↔ den h₂ v :=
   normalize_injective W h₁ h₂ (normalize_respects W hK e) v
 
+/-- **The rewrites are meaning-preserving — a fact about the specification alone.**  No world, no
+    normaliser, no hypothesis on keys: by induction on the derivation, every rule of `Equiv` (and every
+    congruence position) relates hints with the same set of values.  So `Equiv` is not a junk relation and
+    `normalize_respects` identifies only hints that denote the same type. -/
+theorem equiv_meaning_preserving {h₁ h₂ : Hint α} (e : Equiv h₁ h₂) (v : Val α) : den h₁ v ↔ den h₂ v :=
+  equiv_den e v
+
+/-- `Equiv` is not the total relation: hints told apart by a value are not related -/
+theorem not_equiv_of_value {h₁ h₂ : Hint α} (v : Val α) (hv₁ : den h₁ v) (hv₂ : ¬ den h₂ v) : ¬ Equiv h₁ h₂ :=
+  fun e => hv₂ ((equiv_den e v).mp hv₁)
+
 /-- **Implicit parameters.**  A bare generic normalises to the generic applied to
     the documented defaults of its type variables: `Any` without bound, the
     bound, the union of the constraints. -/
@@ -182,11 +195,10 @@ example :
     normalisation; so the hypothesis of `normalize_respects` is necessary. -/
 def Wbad : World Nat := { W₀ with str := fun _ => ['A'], ident := fun _ => 7 }
 
-/-- the object part of `IdentKeys` is satisfiable: a world whose ids are pairwise
-    different and non-zero (the literal part is a fact about `repr()`) -/
+/-- a world whose ids are pairwise different and non-zero -/
 def W₁ : World Nat := { W₀ with ident := fun n => 2000 + n }
 
-example : (∀ o o' : Origin Nat, originKey W₁ o = originKey W₁ o' → o = o') ∧
+theorem W₁_origins : (∀ o o' : Origin Nat, originKey W₁ o = originKey W₁ o' → o = o') ∧
     (∀ o : Origin Nat, (originKey W₁ o).2 ≠ 0) := by
   constructor
   · intro o o' e
@@ -194,6 +206,91 @@ example : (∀ o o' : Origin Nat, originKey W₁ o = originKey W₁ o' → o = o
     cases o <;> cases o' <;> simp [originKey, W₁, W₀] at e2 ⊢ <;> omega
   · intro o
     cases o <;> simp [originKey, W₁, W₀]
+
+/-- **The key hypothesis from `id()` alone.**  `repr()` of the literal values is part of the model
+    (`intRepr`, `pyRepr`, the enum-member key) and *proved* to separate them (`litKey_inj`: decimal
+    numerals, the escape table is a prefix code, the texts of different literal types never coincide), so
+    `IdentKeys` — hence `DistinctOrderKeys`, the hypothesis of `normalize_respects`, `idempotent`, … — holds in
+    every world where `id()` separates the objects and the origins and is never 0. -/
+theorem ident_keys_of_ids (hid : ∀ a b : α, W.ident a = W.ident b → a = b)
+    (horig : ∀ o o' : Origin α, originKey W o = originKey W o' → o = o')
+    (hnz : ∀ o : Origin α, (originKey W o).2 ≠ 0) : IdentKeys W :=
+  identKeys_of_ids W hid horig hnz
+
+/-- **The hypotheses of the canonical-form theorems are satisfiable**: the concrete world `W₁`
+    (infinitely many objects, all literal values — every `int`, every `str` / `bytes` text, every enum
+    member) satisfies `IdentKeys` in full, not only its object part. -/
+theorem identKeys_witness : IdentKeys W₁ :=
+  identKeys_of_ids W₁ (fun a b h => by simp only [W₁] at h; omega) W₁_origins.1 W₁_origins.2
+
+theorem distinctOrderKeys_witness : DistinctOrderKeys W₁ := distinct_order_keys W₁ identKeys_witness
+
+/-- a derivation in the rewrite congruence using six different rules on a hint with two classes, an
+    `Optional`, split literals with the look-alike pair and a duplicated member (non-trivial instance of
+    `Equiv` for the witnesses below):
+    `Union[B, B, Optional[A]]  ≈  A | B | None` -/
+theorem equiv_witness :
+    Equiv (α := Nat) (.union false [.cls 1, .cls 1, .optional (.cls 0)])
+      (.union true [.cls 0, .cls 1, .none true]) := by
+  -- drop the duplicate, spell Optional as a union, flatten it, reorder, change the spelling
+  refine .trans (.unionDup false (.cls 1) [.optional (.cls 0)]) ?_
+  refine .trans (.congUnion false [.cls 1] [] (.optionalDef (.cls 0) true false)) ?_
+  refine .trans (.unionNest false false [.cls 1] [.cls 0, .none true] []) ?_
+  refine .trans (.unionPerm false (ms' := [.cls 0, .cls 1, .none true]) ?_) (.unionStyle false true _)
+  exact List.Perm.swap _ _ _
+
+/-- `Union[Literal[0], Literal[False], A]  ≈  Union[Literal[False, 0], A]` -/
+theorem equiv_literal_witness :
+    Equiv (α := Nat) (.union false [.literal [.int 0], .literal [.bool false], .cls 0])
+      (.union false [.literal [.bool false, .int 0], .cls 0]) :=
+  .litMerge false [.cls 0] (by decide) (by decide) (by decide) (by intro v; simp [or_comm])
+
+/-- `canonical_form` with every hypothesis discharged on concrete data: the conclusion is an equation
+    between two normal forms that are computed independently (the `example` below shows the value) -/
+theorem canonical_form_witness :
+    normalize W₁ (.union false [.cls 1, .cls 1, .optional (.cls 0)]) =
+      normalize W₁ (.union true [.cls 0, .cls 1, .none true]) ∧
+    normalize W₁ (.union false [.literal [.int 0], .literal [.bool false], .cls 0]) =
+      normalize W₁ (.union false [.literal [.bool false, .int 0], .cls 0]) :=
+  ⟨canonical_form W₁ identKeys_witness equiv_witness, canonical_form W₁ identKeys_witness equiv_literal_witness⟩
+
+example : normalize W₁ (.union true [.cls 0, .cls 1, .none true]) =
+    .node .union [.node (.obj 0) [], .node (.obj 1) [], .node .none []] := by decide
+
+/-- `idempotent` / `idempotent_members` / `union_single` / `equiv_sound` with all hypotheses discharged -/
+theorem idempotent_witness :
+    let h : Hint Nat := .union false [.app false 5 [.literal [.int 0, .bool false]], .optional (.cls 0), .cls 1]
+    TypingBuilt h ∧ normalize W₁ (embed (normalize W₁ h)) = normalize W₁ h ∧
+      (∀ a, a ∈ alts (normalize W₁ h) → normalize W₁ (embed a) = a) ∧ (alts (normalize W₁ h)).length = 4 := by
+  intro h
+  have hb : TypingBuilt h := by
+    simp only [h, TypingBuilt, TypingBuiltList]
+    decide
+  exact ⟨hb, idempotent_cpython W₁ identKeys_witness h hb,
+    fun a ha => idempotent_members W₁ distinctOrderKeys_witness h hb a ha, by decide⟩
+
+theorem union_single_witness :
+    TopLitOK (α := Nat) (.literal [.int 0, .bool false]) ∧
+    normalize W₁ (.union true [.literal [.int 0, .bool false]]) = normalize W₁ (.literal [.int 0, .bool false]) := by
+  have hx : TopLitOK (α := Nat) (.literal [.int 0, .bool false]) := by
+    simp only [TopLitOK]
+    decide
+  exact ⟨hx, union_single W₁ distinctOrderKeys_witness true _ hx⟩
+
+/-- `union_literal_typed_distinct` with non-empty `pre` and `post` -/
+theorem union_literal_typed_distinct_witness :
+    normalize W₁ (.union false ([.cls 0] ++ .literal [.int 0, .int 1] :: [.none false])) ≠
+      normalize W₁ (.union false ([.cls 0] ++ .literal [.bool false, .int 1] :: [.none false])) :=
+  union_literal_typed_distinct W₁ false [.cls 0] [.none false] [.int 0, .int 1] (.int 0) (by decide)
+    (by intro m hm; simp only [List.mem_singleton] at hm; subst hm; simp [den])
+    (by intro m hm; simp only [List.mem_singleton] at hm; subst hm; simp [den])
+    [.bool false, .int 1] (by decide)
+
+/-- `union_normal_form`: its hypothesis (the normal form is a union) holds for a concrete hint, with three
+    members -/
+theorem union_normal_form_witness :
+    ∃ args, normalize W₁ (.union false [.cls 1, .cls 1, .optional (.cls 0)]) = .node .union args ∧ args.length = 3 :=
+  ⟨[.node (.obj 0) [], .node (.obj 1) [], .node .none []], by decide, rfl⟩
 
 theorem distinct_keys_necessary :
     normalize Wbad (.union false [.cls 0, .cls 1]) ≠ normalize Wbad (.union false [.cls 1, .cls 0]) := by decide
